@@ -119,6 +119,7 @@ func (m *c12Model) class(e *c12Entry) int {
 type c12Sut interface {
 	Name() string
 	Put(k int, val string, ctr int)
+	Stored(val string, ctr int) string // what Get shows for a value put as (val, ctr)
 	Get(k int) (string, bool)
 	Delete(k int) bool
 	DeleteName() string
@@ -149,17 +150,45 @@ func c12NewLRU(capacity int, ttl time.Duration, pool []string) *c12LRU {
 	return s
 }
 
-func (s *c12LRU) Name() string                   { return "LRUCache" }
-func (s *c12LRU) Put(k int, val string, ctr int) { s.c.Put(s.pool[k], val) }
+func (s *c12LRU) Name() string { return "LRUCache" }
+
+// c12Value: what is actually stored for put number ctr. Most values are distinct strings; some are the values a cache must
+// not mistake for "nothing": the nil interface, a typed nil, the empty string, zero, false, an empty slice.
+func c12Value(val string, ctr int) interface{} {
+	switch ctr % 23 {
+	case 3:
+		return nil
+	case 5:
+		return ""
+	case 7:
+		return 0
+	case 11:
+		return []string(nil)
+	case 13:
+		return (*int)(nil)
+	case 17:
+		return false
+	case 19:
+		return []cache.SearchResult{}
+	}
+	return val
+}
+
+func c12ShowValue(v interface{}) string {
+	if str, isStr := v.(string); isStr {
+		return str
+	}
+	return fmt.Sprintf("(%T)%v", v, v)
+}
+
+func (s *c12LRU) Put(k int, val string, ctr int)    { s.c.Put(s.pool[k], c12Value(val, ctr)) }
+func (s *c12LRU) Stored(val string, ctr int) string { return c12ShowValue(c12Value(val, ctr)) }
 func (s *c12LRU) Get(k int) (string, bool) {
 	v, ok := s.c.Get(s.pool[k])
 	if !ok {
 		return "", false
 	}
-	if str, isStr := v.(string); isStr {
-		return str, true
-	}
-	return fmt.Sprintf("(%T)%v", v, v), true
+	return c12ShowValue(v), true
 }
 func (s *c12LRU) Delete(k int) bool       { return s.c.Delete(s.pool[k]) }
 func (s *c12LRU) DeleteName() string      { return "Delete" }
@@ -258,6 +287,7 @@ func (s *c12SC) Put(k int, val string, ctr int) {
 		}
 	}
 }
+func (s *c12SC) Stored(val string, ctr int) string { return val }
 func (s *c12SC) Get(k int) (string, bool) {
 	rs, ok := s.sc.Get(s.variant(s.pool[k].q), s.pool[k].opts)
 	if !ok {
@@ -340,7 +370,8 @@ type c12Hist struct {
 	r        *rand.Rand
 	sut      c12Sut
 	m        *c12Model
-	regime   int // 0 unlimited, 1 long, 2 already elapsed, 3 practically forever (ttl of centuries: nothing may expire)
+	prelude  func() *c12Viol // scripted operations before the random ones (large caches: fill, age, mass removal)
+	regime   int             // 0 unlimited, 1 long, 2 already elapsed, 3 practically forever (ttl of centuries: nothing may expire)
 	nkeys    int
 	fill     bool
 	ops      []c12Op
@@ -452,7 +483,10 @@ func (h *c12Hist) checkStats(method, clause string) *c12Viol {
 func (h *c12Hist) doPut(k int) *c12Viol {
 	m := h.m
 	h.ctr++
-	val := fmt.Sprintf("v%d", h.ctr)
+	val := h.sut.Stored(fmt.Sprintf("v%d", h.ctr), h.ctr)
+	if !strings.HasPrefix(val, "v") {
+		h.path("puts-of-nil-and-zero-values", 1)
+	}
 	idx := m.find(k)
 	h.ops = append(h.ops, c12Op{code: 'P', k: k, v: h.ctr})
 	h.sut.Put(k, val, h.ctr)
@@ -734,6 +768,11 @@ func (h *c12Hist) run(nops int) *c12Viol {
 	if v := h.shape("New"); v != nil {
 		return v
 	}
+	if h.prelude != nil {
+		if v := h.prelude(); v != nil {
+			return v
+		}
+	}
 	for i := 0; i < nops; i++ {
 		var v *c12Viol
 		x := h.r.Intn(1000)
@@ -938,6 +977,15 @@ func engineLRUModel(ctx *Ctx) {
 			nops = 15000 + hr.Intn(60000)
 			regime = []int{0, 0, 3, 1}[hr.Intn(4)]
 		}
+		if ctx.G(i)%1500 == 301 && kind == "lru" {
+			// a large cache (thousands of entries, more than the application's default capacity) that is filled, aged and then
+			// loses most of its entries at once (mass deletion, or a sweep after most of them expired)
+			kind = "lru-large"
+			capacity = 1024 + hr.Intn(1200)
+			nkeys = capacity + 200
+			nops = 200 + hr.Intn(300)
+			regime = 1
+		}
 		var ttl time.Duration
 		switch regime {
 		case 1:
@@ -960,14 +1008,68 @@ func engineLRUModel(ctx *Ctx) {
 			h.m = c12NewModel(capacity, ttl)
 			if kind == "searchcache" {
 				h.sut = c12NewSC(cache.NewSearchCache(capacity, ttl), c12SCPool(hr, nkeys), hr)
-			} else if kind == "lru-fill" {
+			} else if kind == "lru-fill" || kind == "lru-large" {
 				pool := make([]string, nkeys)
 				for j := range pool {
-					pool[j] = fmt.Sprintf("f%03d", j)
+					pool[j] = fmt.Sprintf("f%04d", j)
 				}
 				h.sut = c12NewLRU(capacity, ttl, pool)
 			} else {
 				h.sut = c12NewLRU(capacity, ttl, c12LRUPool(hr, nkeys))
+			}
+			if kind == "lru-large" {
+				bySweep := hr.Intn(2) == 0
+				h.prelude = func() *c12Viol {
+					n := capacity
+					early := n * 7 / 8
+					step := func(v *c12Viol) *c12Viol {
+						if v == nil {
+							h.state()
+						}
+						return v
+					}
+					for k := 0; k < early; k++ {
+						if v := step(h.doPut(k)); v != nil {
+							return v
+						}
+					}
+					if v := step(h.doAdvance(30 * time.Minute)); v != nil {
+						return v
+					}
+					for k := early; k < n; k++ {
+						if v := step(h.doPut(k)); v != nil {
+							return v
+						}
+					}
+					if bySweep {
+						// the early seven eighths outlive the lifetime, the late eighth does not; a sweep removes what it removes
+						if v := step(h.doAdvance(31 * time.Minute)); v != nil {
+							return v
+						}
+						if v := step(h.doSweep()); v != nil {
+							return v
+						}
+						// half an hour later the late entries have outlived it too
+						if v := step(h.doAdvance(30*time.Minute + 10*time.Second)); v != nil {
+							return v
+						}
+					} else {
+						for k := 0; k < early; k++ {
+							if v := step(h.doDelete(k)); v != nil {
+								return v
+							}
+						}
+						if v := step(h.doAdvance(61 * time.Minute)); v != nil {
+							return v
+						}
+					}
+					for k := early; k < n; k += 1 + h.r.Intn(3) {
+						if v := step(h.doGet(k)); v != nil {
+							return v
+						}
+					}
+					return nil
+				}
 			}
 			viol = h.run(nops)
 		})
